@@ -48,6 +48,9 @@ theorem tyEq_eq : ∀ (a b : Ty), tyEq a b = true → a = b
     case box s' u =>
       simp only [tyEq, Bool.and_eq_true, beq_iff_eq] at h
       rw [h.1, tyEq_eq t u h.2]
+  | .wrap t, b, h => by
+    cases b <;> try (simp [tyEq] at h; done)
+    case wrap u => rw [tyEq_eq t u (by simpa [tyEq] using h)]
   | .duration, b, h => by cases b <;> simp_all [tyEq]
   | .range t, b, h => by
     cases b <;> try (simp [tyEq] at h; done)
@@ -95,6 +98,7 @@ theorem encode_shape : ∀ (ty : Ty) (v : Val), Spec.encode (shape ty) v = Spec.
   | .str, v => by simp [shape]
   | .bytes, v => by simp [shape]
   | .box s t, v => by simp only [shape, Spec.encode]; exact encode_shape t v
+  | .wrap t, v => by simp only [shape, Spec.encode]; exact encode_shape t v
   | .duration, v => by simp [shape]
   | .range t, v => by
     cases v <;> try (simp [shape, Spec.encode]; done)
@@ -152,6 +156,7 @@ theorem wf_shape : ∀ (ty : Ty) (v : Val), wf (shape ty) v = wf ty v
   | .str, v => by simp [shape]
   | .bytes, v => by simp [shape]
   | .box s t, v => by simp only [shape, wf]; exact wf_shape t v
+  | .wrap t, v => by simp only [shape, wf]; exact wf_shape t v
   | .duration, v => by simp [shape]
   | .range t, v => by
     cases v <;> try (simp [shape, wf]; done)
